@@ -220,6 +220,9 @@ def run_plan(plan):
     ev["gap_bucket"] = "neg" if gap < 0 else ("<1e-6" if gap < 1e-6 else ("<1e-5" if gap < 1e-5 else (
         "<1e-4" if gap < 1e-4 else ("<5e-4" if gap < 5e-4 else "big"))))
     cov["gap_" + ev["gap_bucket"]] += 1
+    rg = gap / (1.0 + abs(fref))
+    cov["relgap_" + ("neg" if rg < 0 else "<1e-7" if rg < 1e-7 else "<1e-6" if rg < 1e-6 else
+                     "<1e-5" if rg < 1e-5 else "<1e-4" if rg < 1e-4 else "<1e-3" if rg < 1e-3 else "big")] += 1
     if gap > GAP_TOL * (1.0 + abs(fref)):
       raise Violation("not_optimal", "prior=%s" % pname,
                       "f(M)=%.8g but a positive definite witness reaches %.8g (gap %.3g; d=%d, "
